@@ -465,6 +465,21 @@ class BaseParser:
         attempted = set()
         options = context.options
 
+        # a field given under several spellings: the spelling that is declared first is the one that is parsed
+        # (as field_first_parse picks it), whatever the order of the input keys
+        spellings = {}
+        for key, value in data.items():
+            field = self.get_field(str(key))
+            if field and not field.is_no_input(value, options=options):
+                name = field.attname if as_attname else field.name
+                k = str(key)
+                try:
+                    index = field.all_aliases.index(k if k in field.all_aliases else k.lower())
+                except ValueError:
+                    index = len(field.all_aliases)
+                spellings.setdefault(name, []).append((index, k, value))
+        conflicted = set()
+
         for key, value in data.items():
             key = str(key)
             field = self.get_field(key)
@@ -486,13 +501,19 @@ class BaseParser:
                         result[name] = default
                 continue
 
-            if not options.ignore_alias_conflicts:
-                if name in provided:  # or (excluded_keys and name in excluded_keys):
-                    # compare the given values (as field_first_parse does), not the parsed result with a raw value
-                    if _differ(provided[name], value):
-                        context.handle_error(exc.AliasConflictError(item=name, value=value))
+            given = spellings.get(name) or []
+            if len(given) > 1:
+                first = min(given, key=lambda g: g[0])
+                if not options.ignore_alias_conflicts and name not in conflicted:
+                    for _index, _key, _value in given:
+                        # compare the given values (as field_first_parse does), not the parsed result with a raw value
+                        if _key != first[1] and _differ(first[2], _value):
+                            conflicted.add(name)
+                            context.handle_error(exc.AliasConflictError(item=name, value=_value))
+                            break
+                if key != first[1]:
                     continue
-                provided[name] = value
+            provided[name] = value
 
             if excluded_keys and name in excluded_keys:
                 # already given (by position): the keyword is an unknown key, as field_first_parse treats it
@@ -572,13 +593,14 @@ class BaseParser:
         as_attname: bool = False,
         excluded_keys: List[str] = None,
     ):
+        conflicted = set()
         if self.case_insensitive_names:
             _data = {}
             for k, v in data.items():
                 k = str(k)
                 if k.lower() in self.case_insensitive_names:
                     lk = k.lower()
-                    if lk in _data and _differ(_data[lk], v):
+                    if lk in _data:
                         field = self.get_field(lk)
                         if field:
                             # a value that is not taken as input can not conflict (and does not win)
@@ -587,12 +609,16 @@ class BaseParser:
                             if field.is_no_input(_data[lk], options=context.options):
                                 _data[lk] = v
                                 continue
-                        if not context.options.ignore_alias_conflicts:
+                        if _differ(_data[lk], v) and not context.options.ignore_alias_conflicts:
                             # two case variants of one name with different values: a conflict,
                             # as data_first_parse reports it (not silently "last one wins")
                             name = (field.attname if as_attname else field.name) if field else lk
-                            context.handle_error(exc.AliasConflictError(item=name, value=v))
-                            continue
+                            if name not in conflicted:
+                                # (one report per field, as in data_first_parse)
+                                conflicted.add(name)
+                                context.handle_error(exc.AliasConflictError(item=name, value=v))
+                        # the first of the case variants is the one that is parsed (as in data_first_parse)
+                        continue
                     _data[lk] = v
                 else:
                     _data[k] = v
@@ -625,7 +651,8 @@ class BaseParser:
                         if options.ignore_alias_conflicts:
                             break
                     elif _differ(data[alias], value):
-                        context.handle_error(exc.AliasConflictError(item=name, value=data[alias]))
+                        if name not in conflicted:
+                            context.handle_error(exc.AliasConflictError(item=name, value=data[alias]))
                         break
 
             if unprovided(value) and no_input:
